@@ -254,6 +254,60 @@ impl VisitorMut for RecMutOverride {
     }
 }
 
+/// immutable recording visitor that also overrides some per-instruction hooks (without re-visiting): the id hooks of
+/// those instructions' operands must fire all the same
+#[derive(Default)]
+pub struct RecOverride {
+    pub inner: Rec,
+}
+impl<'a> Visitor<'a> for RecOverride {
+    fn start_instr_seq(&mut self, s: &'a InstrSeq) {
+        self.inner.start_instr_seq(s)
+    }
+    fn end_instr_seq(&mut self, s: &'a InstrSeq) {
+        self.inner.end_instr_seq(s)
+    }
+    fn visit_instr(&mut self, i: &'a Instr, l: &'a InstrLocId) {
+        self.inner.visit_instr(i, l)
+    }
+    fn visit_call(&mut self, _i: &Call) {}
+    fn visit_local_get(&mut self, _i: &LocalGet) {}
+    fn visit_local_tee(&mut self, _i: &LocalTee) {}
+    fn visit_global_set(&mut self, _i: &GlobalSet) {}
+    fn visit_loop(&mut self, _i: &Loop) {}
+    fn visit_if_else(&mut self, _i: &IfElse) {}
+    fn visit_store(&mut self, _i: &Store) {}
+    fn visit_call_indirect(&mut self, _i: &CallIndirect) {}
+    fn visit_br(&mut self, _i: &Br) {}
+    fn visit_instr_seq_id(&mut self, x: &InstrSeqId) {
+        self.inner.log.id("seq", x.index());
+    }
+    fn visit_local_id(&mut self, x: &LocalId) {
+        self.inner.log.id("local", x.index());
+    }
+    fn visit_memory_id(&mut self, x: &MemoryId) {
+        self.inner.log.id("memory", x.index());
+    }
+    fn visit_table_id(&mut self, x: &TableId) {
+        self.inner.log.id("table", x.index());
+    }
+    fn visit_global_id(&mut self, x: &GlobalId) {
+        self.inner.log.id("global", x.index());
+    }
+    fn visit_function_id(&mut self, x: &FunctionId) {
+        self.inner.log.id("func", x.index());
+    }
+    fn visit_data_id(&mut self, x: &DataId) {
+        self.inner.log.id("data", x.index());
+    }
+    fn visit_type_id(&mut self, x: &TypeId) {
+        self.inner.log.id("type", x.index());
+    }
+    fn visit_element_id(&mut self, x: &ElementId) {
+        self.inner.log.id("elem", x.index());
+    }
+}
+
 /// all traversal cases of one module: one line per (local function, traversal flavour)
 pub fn cases_of(id: &str, source: &str, m: &mut Module) -> Vec<Json> {
     let mut out = vec![];
@@ -273,6 +327,12 @@ pub fn cases_of(id: &str, source: &str, m: &mut Module) -> Vec<Json> {
             let mut v = Rec::default();
             dfs_in_order(&mut v, lf, lf.entry_block());
             out.push(json!({"id": format!("{}~in_order", base), "source": source, "flavour": "in_order", "tree": tree, "log": v.log.finish()}));
+        }
+        {
+            let lf = m.funcs.get(fid).kind.unwrap_local();
+            let mut v = RecOverride::default();
+            dfs_in_order(&mut v, lf, lf.entry_block());
+            out.push(json!({"id": format!("{}~in_order_overridden", base), "source": source, "flavour": "in_order", "tree": tree, "log": v.inner.log.finish()}));
         }
         {
             let lf = m.funcs.get_mut(fid).kind.unwrap_local_mut();
